@@ -8,6 +8,7 @@ import ExponaxModel.Model.Nonlin
 import ExponaxModel.Model.EtdrkSpec
 import ExponaxModel.Model.Wave
 import ExponaxModel.Model.Guards
+import ExponaxModel.Model.Spectrum
 import ExponaxModel.Generated.Etdrk
 import ExponaxModel.Generated.Convert
 import ExponaxModel.Generated.Misc
@@ -400,6 +401,16 @@ def dispatch (op : String) : P String := do
       let need ← pNat; let C ← pNat
       return outInts [b2i (Guards.fixedChannelsOk need C)]
     | _ => throw "guard kind"
+  | "grid" =>
+    let L ← pRe; let N ← pNat; let zc ← pNat; let full ← pNat
+    return outRe ((List.range (gridLen N (full = 1))).map (fun j => (gridCoord L N (zc = 1) j : CF)))
+  | "wrap" =>
+    let D ← pNat; let N ← pNat
+    return outInts ((List.range ((N + 1) ^ D)).map (fun i => Int.ofNat (wrapSource D N i)))
+  | "spectrum" =>
+    let D ← pNat; let N ← pNat; let power ← pNat; let avg ← pNat
+    let u ← pMany (N ^ D) pRe
+    return outRe (Spectrum.spectrum D N (power = 1) (avg = 1) u).toList
   | _ => throw s!"unknown op {op}"
 
 partial def loop (h : IO.FS.Stream) (out : IO.FS.Stream) : IO Unit := do
